@@ -36,6 +36,9 @@ pub fn check(tier: Tier) -> Check {
     // the bookkeeping across a reconnect: kept while the session lives, forgotten when it expired
     parts.push(Part::new("C09/reset", json!({}), 0, 60));
     parts.push(Part::new("C09/wide", json!({"n": tier.pick(4096, 65535)}), 0, 300));
+    // value flavour (DESIGN 4): the same exploration with requests / inbound messages of unusual content
+    parts.push(Part::new("C09/qos2", json!({"depth": tier.pick(6, 7), "vals": 1}), 0, tier.pick(40, 300)));
+    parts.push(Part::new("C09/qos2", json!({"depth": tier.pick(4, 5), "two": true, "vals": 1}), 0, tier.pick(40, 300)));
     Check {
         also_rel: false,
         property: "C09",
